@@ -557,17 +557,30 @@ IDENTITY_CALLS = re.compile(
 OPAQUE_CARRIERS = re.compile(r"(&mut |&)?(state::ProcessTransaction(<.*>)?|state::ProcessState|jobserver::JobServerHandle|env::Env)")
 
 
-def taint(body, src_place=None, src_call=None, seeds=(), mode="derived", through=None, barrier_call=None):
-    """Flow-insensitive forward value flow over the locals of one body.
+def place_key(p):
+    """Taint key of a place: its base local, except that each closure/coroutine upvar (a field of
+    `_1`) is its own key, so that one captured variable does not taint the others."""
+    if p["l"] == 1:
+        for e in p["p"]:
+            if e == "deref":
+                continue
+            if e.startswith("f:upvar."):
+                return -(1000 + int(e[2:].split(".", 2)[1]))
+            break
+    return p["l"]
+
+
+def taint(body, src_place=None, src_call=None, seeds=(), mode="derived", through=None, barrier_call=None, why=None):
+    """Flow-insensitive forward value flow over the locals of one body (upvars are separate keys).
 
     A local becomes tainted when it is assigned from an rvalue that reads a tainted local or a
     place for which src_place(place) holds, or is the destination of a call for which
     src_call(term) holds, or (mode 'derived') of any call with a tainted argument, or (mode
     'direct') of such a call whose callee is identity-preserving (IDENTITY_CALLS or `through`).
     A call with a tainted argument also taints the referents of its `&mut` arguments
-    (derived mode, or direct mode for identity calls such as push/extend listed in `through`).
+    (except the opaque carriers: transaction / process state / environment handles).
     barrier_call(term) -> True stops propagation through that call.
-    Returns the set of tainted locals.
+    Returns the set of tainted locals (negative numbers stand for upvars, see place_key).
     """
     ba = BA.of(body)
     tainted = set(seeds)
@@ -575,7 +588,7 @@ def taint(body, src_place=None, src_call=None, seeds=(), mode="derived", through
     def place_tainted(p):
         if p is None:
             return False
-        if p["l"] in tainted:
+        if place_key(p) in tainted:
             return True
         if src_place is not None and src_place(p):
             return True
@@ -584,6 +597,34 @@ def taint(body, src_place=None, src_call=None, seeds=(), mode="derived", through
     def op_t(o):
         return place_tainted(op_place(o))
 
+    def referent_keys(l):
+        """Keys a `&mut` temporary may point into: the places borrowed along its ref chain."""
+        out = []
+        cur = l
+        for _ in range(10):
+            d = ba.single_def(cur)
+            if d is None or d[0] != "stmt":
+                break
+            rv = d[3]
+            if rv["k"] == "ref":
+                out.append(place_key(rv["place"]))
+                cur = rv["place"]["l"]
+                if rv["place"]["p"] and rv["place"]["p"] != ["deref"]:
+                    break
+            elif rv["k"] == "use" and op_place(rv["op"]) is not None:
+                cur = op_place(rv["op"])["l"]
+            else:
+                break
+        return out or [l]
+
+    def mark(k, reason):
+        if k not in tainted:
+            tainted.add(k)
+            if why is not None:
+                why[k] = reason
+            return True
+        return False
+
     changed = True
     while changed:
         changed = False
@@ -591,12 +632,11 @@ def taint(body, src_place=None, src_call=None, seeds=(), mode="derived", through
             for s in blk["stmts"]:
                 if s["s"] != "assign":
                     continue
-                l = s["place"]["l"]
-                if l in tainted:
+                k = place_key(s["place"])
+                if k in tainted:
                     continue
                 if any(place_tainted(p) for p in rvalue_places(s["rv"])):
-                    tainted.add(l)
-                    changed = True
+                    changed |= mark(k, ("stmt", i))
             t = blk["term"]
             if t["t"] == "call":
                 if barrier_call is not None and barrier_call(t):
@@ -606,28 +646,19 @@ def taint(body, src_place=None, src_call=None, seeds=(), mode="derived", through
                 idc = any(IDENTITY_CALLS.fullmatch(p) or (through is not None and through.fullmatch(p)) for p in callee_paths(t))
                 flows = is_src or (any_t and (mode == "derived" or idc))
                 if flows:
-                    l = t["dest"]["l"]
-                    if l not in tainted:
-                        tainted.add(l)
-                        changed = True
-                    if any_t or is_src:
-                        # out-parameters: referents of &mut arguments
-                        for a, aty in zip(t["args"], t.get("arg_tys", [])):
-                            if OPAQUE_CARRIERS.fullmatch(aty):
-                                # the transaction / process state / environment handle threads through
-                                # every call; it is not a carrier of the tracked value
+                    changed |= mark(place_key(t["dest"]), ("calldest", i))
+                    for a, aty in zip(t["args"], t.get("arg_tys", [])):
+                        if OPAQUE_CARRIERS.fullmatch(aty):
+                            # the transaction / process state / environment handle threads through
+                            # every call; it is not a carrier of the tracked value
+                            continue
+                        if aty.startswith("&mut ") or aty.startswith("core::pin::Pin<&mut"):
+                            al = op_local(a)
+                            if al is None:
                                 continue
-                            if aty.startswith("&mut ") or aty.startswith("core::pin::Pin<&mut"):
-                                al = op_local(a)
-                                if al is None:
-                                    continue
-                                base = ba.base_local_of_ref(al)
-                                for x in (al, base):
-                                    if x not in tainted:
-                                        tainted.add(x)
-                                        changed = True
-            elif t["t"] == "yield":
-                pass
+                            changed |= mark(al, ("outparam", i))
+                            for x in referent_keys(al):
+                                changed |= mark(x, ("outparam", i))
     return tainted
 
 
